@@ -323,7 +323,7 @@ def _annotations_from_source(fn_node):
     return out
 
 
-JOB_TIMEOUT_S = 20
+JOB_TIMEOUT_S = 10
 
 
 class JobTimeout(BaseException):
@@ -359,7 +359,10 @@ class Replica(object):
 
     def run(self):
         jobs = {j["id"]: j for j in self.task["jobs"]}
+        timeouts = 0
         for jid in self.task["schedule"]:
+            if timeouts >= 2:
+                break  # two hangs are evidence enough; do not spend the budget on more
             occ = self.count.get(jid, 0)
             self.count[jid] = occ + 1
             job = jobs[jid]
@@ -367,6 +370,7 @@ class Replica(object):
             try:
                 res = self.execute(job, occ)
             except JobTimeout:
+                timeouts += 1
                 res = {"exception": "did not terminate within %d s" % JOB_TIMEOUT_S}
                 self.add_violation(self.task["prop"], job, "T-no-termination", "job %d (%s) did not terminate within %d s (line_length %s)" % (
                     jid, job["kind"], JOB_TIMEOUT_S, self.task.get("line_length")), {"explicit_width": self.task.get("line_length") is not None})
@@ -608,7 +612,10 @@ def worker_main():
         res = rep.run()
     finally:
         rep.close()
-    real_out.write("@@R " + json.dumps(res, default=core._default) + "\n")
+    # the result goes to a file next to the task (a pipe would block once it exceeds the pipe buffer)
+    with open(sys.argv[3] + ".out", "wt") as f:
+        json.dump(res, f, default=core._default)
+    real_out.write("@@DONE\n")
     real_out.flush()
 
 
@@ -632,7 +639,7 @@ def run_replicas(prop, jobs, replicas, want_payload=False, timeout=600):
                     json.dump({"prop": prop, "jobs": jobs, "schedule": rep["schedule"], "line_length": rep.get("line_length"), "want_payload": want_payload}, f)
                 env = core.worker_env(hashseed=rep["hashseed"], extra={"DOCTRANS_LINE_LENGTH": rep.get("line_length")})
                 p = subprocess.Popen([core.PYTHON, "-W", "ignore", core.LAUNCHER, "worker", "replica", tf], env=env, cwd=core.VERIF,
-                                     stdout=subprocess.PIPE, stderr=subprocess.PIPE)
+                                     stdout=subprocess.PIPE, stderr=open(tf + ".err", "wb"))
                 running.append((rep, p, time.monotonic()))
             still = []
             for rep, p, ts in running:
@@ -643,10 +650,11 @@ def run_replicas(prop, jobs, replicas, want_payload=False, timeout=600):
                     still.append((rep, p, ts))
                     continue
                 so, se = p.communicate()
-                line = [ln for ln in so.decode(errors="replace").splitlines() if ln.startswith("@@R ")]
-                if p.returncode != 0 or not line:
-                    raise HarnessError("replica %d (hashseed %s, line_length %s) failed: rc=%s %s" % (rep["rid"], rep["hashseed"], rep.get("line_length"), p.returncode, se.decode(errors="replace")[-1500:]))
-                out[rep["rid"]] = json.loads(line[-1][4:])
+                resf = os.path.join(d, "task%d.json.out" % rep["rid"])
+                if p.returncode != 0 or b"@@DONE" not in so or not os.path.isfile(resf):
+                    raise HarnessError("replica %d (hashseed %s, line_length %s) failed: rc=%s %s" % (rep["rid"], rep["hashseed"], rep.get("line_length"), p.returncode, open(os.path.join(d, "task%d.json.err" % rep["rid"]), "rb").read().decode(errors="replace")[-1500:]))
+                with open(resf) as f:
+                    out[rep["rid"]] = json.load(f)
             running = still
             if running:
                 time.sleep(0.02)
